@@ -416,6 +416,43 @@ Definition wp_leaf (c : stmt) (Q : post) (st : store) : Prop :=
           normal Q (set st x (Ar (match ra with A1 _ _ => A1 DFlt d | A2 _ r c _ => A2 DFlt r c d end)))
       | _ => False
       end
+  | SArrScale a e =>
+      match get st a with
+      | Ar ra =>
+          esafe e st /\
+          normal Q (set st a (Ar (match ra with
+                                  | A1 dt d => A1 dt (scale_cells dt (evalv e st) d)
+                                  | A2 dt r c d => A2 dt r c (scale_cells dt (evalv e st) d) end)))
+      | _ => False
+      end
+  | SShiftLeft a =>
+      match get st a with
+      | Ar (A1 dt d) => normal Q (set st a (Ar (A1 dt (shift_left d))))
+      | _ => False
+      end
+  | SColSums x a =>
+      match get st a with
+      | Ar (A2 dt n c d) => normal Q (set st x (Ar (A1 dt (col_sums dt n c d))))
+      | _ => False
+      end
+  | SColUpd _ a j op h e =>
+      match get st a with
+      | Ar (A2 dt n c d) =>
+          esafe j st /\ esafe e st /\ 0 <= to_int (evalv j st) < c /\
+          match h with
+          | None => normal Q (set st a (Ar (A2 dt n c
+                       (col_upd dt n c (to_int (evalv j st)) d op None (evalv e st)))))
+          | Some hv =>
+              match get st hv with
+              | Ar (A1 _ hd) =>
+                  zlen hd = n /\
+                  normal Q (set st a (Ar (A2 dt n c
+                       (col_upd dt n c (to_int (evalv j st)) d op (Some hd) (evalv e st)))))
+              | _ => False
+              end
+          end
+      | _ => False
+      end
   | SCall l ts fn args =>
       match find_func env fn, ann l with
       | Some g, ACall pre sh post =>
@@ -572,6 +609,21 @@ Proof.
   - (* SArrDivSc *)
     unfold get_arr. destruct (get st a) as [| |ra]; try contradiction.
     destruct H as [H1 H2]. simpl. rewrite (esafe_sound _ _ H1). simpl. exact H2.
+  - (* SArrScale *)
+    unfold get_arr. destruct (get st a) as [| |ra]; try contradiction.
+    destruct H as [H1 H2]. simpl. rewrite (esafe_sound _ _ H1). simpl. exact H2.
+  - (* SShiftLeft *)
+    unfold get_arr. destruct (get st a) as [| |[dt d|]]; try contradiction. simpl. exact H.
+  - (* SColSums *)
+    unfold get_arr. destruct (get st a) as [| |[|dt r c d]]; try contradiction. simpl. exact H.
+  - (* SColUpd *)
+    unfold get_arr. destruct (get st a) as [| |[|dt r c d]]; try contradiction.
+    destruct H as [H1 [H2 [H3 H4]]]. simpl.
+    rewrite (esafe_sound _ _ H1). simpl. rewrite (esafe_sound _ _ H2). simpl.
+    rewrite in_range_true by assumption. simpl.
+    destruct h as [hv|]; [|exact H4].
+    destruct (get st hv) as [| |[dt' hd|]]; try contradiction.
+    destruct H4 as [H5 H6]. simpl. rewrite H5, Z.eqb_refl. simpl. exact H6.
   - (* SCall *)
     destruct (find_func env f0) as [g|]; try contradiction.
     destruct (ann l) as [| pre sh pst |]; try contradiction.
